@@ -433,6 +433,15 @@ class Evaluator:
         if isinstance(node, ast.Assign):
             out = []
             for s, v in self._eval(st, node.value):
+                if len(node.targets) == 1 and isinstance(node.targets[0], (ast.Attribute, ast.Subscript)):
+                    # the target's own sub-expressions may branch (a helper computing the key): one store per branch
+                    for s2, (base, idx) in self._eval_target(s, node.targets[0]):
+                        if getattr(s2, "raised", None):
+                            out.append((s2, s2.raised))
+                            continue
+                        self._store(s2, base, idx, v, node)
+                        out.append((s2, None))
+                    continue
                 for tg in node.targets:
                     self._assign(s, tg, v, node)
                 out.append((s, None))
@@ -487,6 +496,10 @@ class Evaluator:
                 else:
                     out.append((s, ("raise", ("call", ("name", "AssertionError"), (), (), None))))
             return out
+        if isinstance(node, ast.For):
+            flat = self._desugar_local_generator(st, node)
+            if flat is not None:
+                return self._exec_block([st], flat)
         if isinstance(node, (ast.For, ast.While)):
             return self._exec_loop(st, node)
         if isinstance(node, ast.Delete):
@@ -675,6 +688,116 @@ class Evaluator:
             done.extend((s, None) for s in live)
         done.extend((s, None) for s in broke)
         return done
+
+    def _desugar_local_generator(self, st: _State, node: ast.For) -> Optional[List[ast.stmt]]:
+        """`for T in gen(): BODY` where gen is a generator function defined locally in the function being
+        evaluated and called without arguments: the generator runs in lock-step with its consumer, so the
+        loop is the generator's body with every `yield E` replaced by `T = E; BODY` and every
+        `yield from IT` by `for T in IT: BODY`.  Only when that is exact: BODY has no break / continue /
+        return of its own level, the generator yields in statement position only, a `return` of the
+        generator occurs only directly in its last statement's loop (where it is a `break`), the
+        generator's locals do not clash with names of the enclosing function, and no else clause."""
+        import copy
+
+        if node.orelse or not (isinstance(node.iter, ast.Call) and isinstance(node.iter.func, ast.Name) and not node.iter.keywords and not any(isinstance(a, ast.Starred) for a in node.iter.args)):
+            return None
+        cur = self._cur_func
+        g = cur.nested.get(node.iter.func.id) if cur is not None else None
+        if g is None:
+            return None
+        if getattr(g.node, "decorator_list", None):
+            return None
+        ga = g.node.args
+        if ga.kwonlyargs or ga.vararg or ga.kwarg or ga.defaults or ga.posonlyargs or len(ga.args) != len(node.iter.args):
+            return None
+        gparams = [a.arg for a in ga.args]
+        gbody = [x for x in g.node.body if not (isinstance(x, ast.Expr) and isinstance(x.value, ast.Constant))]
+
+        def own_level(stmts, kinds):
+            """statements of these kinds that belong to this level (not inside a nested loop / function)"""
+            found = []
+            for x in stmts:
+                if isinstance(x, kinds):
+                    found.append(x)
+                if isinstance(x, (ast.For, ast.While, ast.FunctionDef, ast.AsyncFunctionDef, ast.ClassDef)):
+                    if isinstance(x, (ast.For, ast.While)) and ast.Return in kinds:
+                        found.extend(own_level(x.body + x.orelse, (ast.Return,)))
+                    continue
+                for fld in ("body", "orelse", "finalbody", "handlers"):
+                    sub = getattr(x, fld, None)
+                    if isinstance(sub, list):
+                        found.extend(own_level([y for y in sub if isinstance(y, ast.stmt)], kinds))
+                        for h in sub:
+                            if isinstance(h, ast.ExceptHandler):
+                                found.extend(own_level(h.body, kinds))
+            return found
+
+        if own_level(node.body, (ast.Break, ast.Continue, ast.Return)):
+            return None
+        yields = [n for n in ast.walk(g.node) if isinstance(n, (ast.Yield, ast.YieldFrom))]
+        if not yields:
+            return None
+        stmt_yields = [x for x in ast.walk(g.node) if isinstance(x, ast.Expr) and isinstance(x.value, (ast.Yield, ast.YieldFrom))]
+        if len(stmt_yields) != len(yields) or any(isinstance(y, ast.Yield) and y.value is None for y in yields):
+            return None
+        if any(isinstance(n, (ast.Lambda, ast.FunctionDef, ast.Try, ast.With, ast.Nonlocal, ast.Global)) for x in gbody for n in ast.walk(x)):
+            return None
+        # returns of the generator: only `return` (no value) directly inside the loop that is its last statement
+        rets = [n for x in gbody for n in ast.walk(x) if isinstance(n, ast.Return)]
+        if rets:
+            last = gbody[-1]
+            if not isinstance(last, (ast.For, ast.While)) or last.orelse or any(r.value is not None for r in rets):
+                return None
+            inner_loops = [n for n in ast.walk(last) if isinstance(n, (ast.For, ast.While)) and n is not last]
+            in_last = [n for n in ast.walk(last) if isinstance(n, ast.Return)]
+            in_inner = [n for l_ in inner_loops for n in ast.walk(l_) if isinstance(n, ast.Return)]
+            if len(in_last) != len(rets) or in_inner:
+                return None
+        # name clashes: what the generator assigns must be its own
+        assigned = {n.id for x in gbody for n in ast.walk(x) if isinstance(n, ast.Name) and isinstance(n.ctx, ast.Store)} | set(gparams)
+        outer_names = {n.id for x in cur.node.body if x is not g.node for n in ast.walk(x) if isinstance(n, ast.Name)}
+        tnames = {n.id for n in ast.walk(node.target) if isinstance(n, ast.Name)}
+        if assigned & (outer_names - tnames):
+            return None
+        if assigned & tnames:
+            # a name shared by the generator and the loop target is harmless only where the yield hands over that very variable
+            tl = node.target.elts if isinstance(node.target, ast.Tuple) else [node.target]
+            for y in yields:
+                if not isinstance(y, ast.Yield):
+                    return None
+                vl = y.value.elts if isinstance(y.value, ast.Tuple) and isinstance(node.target, ast.Tuple) else [y.value]
+                if len(vl) != len(tl):
+                    return None
+                for t_, v_ in zip(tl, vl):
+                    if isinstance(t_, ast.Name) and t_.id in assigned and not (isinstance(v_, ast.Name) and v_.id == t_.id):
+                        return None
+                    if not isinstance(t_, ast.Name) and {n.id for n in ast.walk(t_) if isinstance(n, ast.Name)} & assigned:
+                        return None
+
+        target, body = node.target, node.body
+
+        class _Rewrite(ast.NodeTransformer):
+            def visit_Expr(self_inner, x):  # noqa: N805
+                if isinstance(x.value, ast.Yield):
+                    assign = ast.Assign(targets=[copy.deepcopy(target)], value=x.value.value, lineno=x.lineno, col_offset=x.col_offset)
+                    return [ast.copy_location(assign, x)] + [copy.deepcopy(b) for b in body]
+                if isinstance(x.value, ast.YieldFrom):
+                    loop = ast.For(target=copy.deepcopy(target), iter=x.value.value, body=[copy.deepcopy(b) for b in body], orelse=[], lineno=x.lineno, col_offset=x.col_offset)
+                    return ast.copy_location(loop, x)
+                return x
+
+            def visit_Return(self_inner, x):  # noqa: N805
+                return ast.copy_location(ast.Break(), x)
+
+        out = []
+        for pn, av in zip(gparams, node.iter.args):
+            out.append(ast.copy_location(ast.Assign(targets=[ast.Name(id=pn, ctx=ast.Store())], value=av, lineno=node.lineno, col_offset=node.col_offset), node))
+        for x in gbody:
+            r = _Rewrite().visit(copy.deepcopy(x))
+            out.extend(r if isinstance(r, list) else [r])
+        for x in out:
+            ast.fix_missing_locations(x)
+        return out
 
     def _exec_loop(self, st: _State, node: ast.stmt) -> List[Tuple[_State, Optional[Tuple]]]:
         if isinstance(node, ast.For) and isinstance(node.target, (ast.Name, ast.Tuple)):
@@ -1206,7 +1329,19 @@ class Evaluator:
             bound = set(params) | {a.arg for a in e.args.kwonlyargs}
             free = sorted({n.id for n in ast.walk(e.body) if isinstance(n, ast.Name) and isinstance(n.ctx, ast.Load) and n.id not in bound})
             self._emit(st, "note", e, what="deferred", events=sink, free=free)
-        return ("lambda", params, body)
+        term = ("lambda", params, body)
+        # remembered for a later application of this very closure (passed to a local function, called after a loop):
+        # its defaults are evaluated now, its free variables are read when it runs
+        if not e.args.kwonlyargs and e.args.vararg is None and e.args.kwarg is None and not self._quiet:
+            try:
+                dvals = [self._eval_quiet(st, d) for d in e.args.defaults]
+            except Unrecognised:
+                dvals = None
+            if dvals is not None:
+                if not hasattr(self, "_lambda_nodes"):
+                    self._lambda_nodes = {}
+                self._lambda_nodes[term] = (e, dict(st.env), dvals, self._cur_func)
+        return term
 
     def _unroll_comp(self, st: _State, e: ast.AST) -> Optional[List[Tuple[_State, Term]]]:
         """[f(x) for x in (a, b)] over a short literal sequence is the list [f(a), f(b)]: evaluated item
@@ -1321,14 +1456,35 @@ class Evaluator:
                     out.extend(self._apply(s3, e, fterm, recv, argts, kws))
         return out
 
-    def _trivial(self, f: FuncInfo) -> bool:
+    def _as_expression(self, f: FuncInfo) -> Optional[ast.expr]:
+        """the expression a function returns, if it is `return E` or `if C: return A` followed by `return B`
+        (or `else: return B`), which is `A if C else B`"""
         body = [s for s in f.node.body if not (isinstance(s, ast.Expr) and isinstance(s.value, ast.Constant))]
-        if len(body) != 1 or not isinstance(body[0], ast.Return) or body[0].value is None:
+        if len(body) == 1 and isinstance(body[0], ast.Return) and body[0].value is not None:
+            return body[0].value
+        if body and isinstance(body[0], ast.If) and len(body[0].body) == 1 and isinstance(body[0].body[0], ast.Return) and body[0].body[0].value is not None:
+            other = None
+            if len(body) == 2 and not body[0].orelse and isinstance(body[1], ast.Return) and body[1].value is not None:
+                other = body[1].value
+            elif len(body) == 1 and len(body[0].orelse) == 1 and isinstance(body[0].orelse[0], ast.Return) and body[0].orelse[0].value is not None:
+                other = body[0].orelse[0].value
+            if other is not None:
+                ife = ast.IfExp(test=body[0].test, body=body[0].body[0].value, orelse=other)
+                ast.copy_location(ife, body[0])
+                ast.fix_missing_locations(ife)
+                return ife
+        return None
+
+    def _trivial(self, f: FuncInfo) -> bool:
+        ex = self._as_expression(f)
+        if ex is None:
             return False
         if f.is_abstract:
             return False
-        # single return of an expression without comprehension/lambda
-        for n in ast.walk(body[0].value):
+        if isinstance(ex, ast.IfExp) and f.outer is None:
+            return False  # the two-return form is folded into an expression for local functions only (methods keep their paths)
+        # an expression without comprehension/lambda
+        for n in ast.walk(ex):
             if isinstance(n, (ast.Lambda, ast.ListComp, ast.GeneratorExp, ast.SetComp, ast.DictComp)):
                 return False
         return True
@@ -1359,6 +1515,40 @@ class Evaluator:
             return [(st, NONE)]
         if fterm == ("name", "getattr") and len(args) == 2 and not kws and args[1][0] == "const" and isinstance(args[1][1], str):
             return [(st, self._read(st, args[0], args[1][1], e))]
+        # calling a closure that was created earlier on this path: run its body here, with what it was given
+        # when it was created (defaults) and what its free variables hold now
+        if fterm[0] == "lambda" and getattr(self, "_lambda_nodes", {}).get(fterm) is not None and not (bool(self._ctx) and self._ctx[-1] in ("lambda", "comp")) and not self._quiet:
+            lnode, lenv, dvals, lfunc = self._lambda_nodes[fterm]
+            params = list(fterm[1])
+            if len(args) <= len(params) and all(k in params[len(args):] for k, _ in kws):
+                bind: Dict[str, Term] = {}
+                for p_, a in zip(params, args):
+                    bind[p_] = a
+                for k, v in kws:
+                    bind[k] = v
+                ndef = len(dvals)
+                for i, p_ in enumerate(params):
+                    if p_ not in bind:
+                        j = i - (len(params) - ndef)
+                        if j >= 0:
+                            bind[p_] = dvals[j]
+                if len(bind) == len(params):
+                    env = dict(lenv)
+                    if self._cur_func is lfunc or (self._cur_func is not None and self._cur_func.outer is lfunc):
+                        env.update(st.env)
+                    env.update(bind)
+                    saved_env = st.env
+                    st.env = env
+                    try:
+                        res = self._eval(st, lnode.body)
+                    finally:
+                        pass
+                    out_l = []
+                    for s2, v in res:
+                        s2.env = saved_env if s2 is st else dict(saved_env)
+                        out_l.append((s2, v))
+                    st.env = saved_env
+                    return out_l
         # calling a lambda term: substitute its parameters
         if fterm[0] == "lambda" and all(k in fterm[1][len(args):] for k, _ in kws) and len(args) + len(kws) == len(fterm[1]) and len({k for k, _ in kws}) == len(kws):
             from .terms import substitute
@@ -1366,6 +1556,31 @@ class Evaluator:
             binding = {("bound", p_): a for p_, a in zip(fterm[1], args)}
             binding.update({("bound", k): v for k, v in kws})
             return [(st, substitute(fterm[2], binding))]
+        # the operator module spells operators as functions
+        fk = key(fterm) if fterm[0] in ("name", "attr") else ""
+        if fk.startswith("operator.") and not kws:
+            opn = fk.split(".", 1)[1]
+            cmpo = {"gt": ">", "lt": "<", "ge": ">=", "le": "<=", "eq": "==", "ne": "!=", "is_": "is", "is_not": "is not", "contains": None}
+            bino = {"add": "+", "sub": "-", "mul": "*", "truediv": "/", "floordiv": "//", "mod": "%"}
+            if opn in cmpo and cmpo[opn] is not None and len(args) == 2:
+                for s2, t2 in [(st, ("cmp", cmpo[opn], args[0], args[1]))]:
+                    c2, pol2 = canon_pred(t2)
+                    return [(s2, c2 if pol2 else ("not", c2))]
+            if opn in bino and len(args) == 2:
+                return [(st, ("bin", bino[opn], args[0], args[1]))]
+            if opn == "not_" and len(args) == 1:
+                return [(st, ("not", args[0]))]
+            if opn == "neg" and len(args) == 1:
+                return [(st, ("un", "-", args[0]))]
+        # operator.attrgetter('a')(x) is x.a; operator.methodcaller('m', ...)(x) is x.m(...)
+        if fterm[0] == "call" and key(fterm[1]) in ("operator.attrgetter", "attrgetter") and len(fterm[2]) == 1 and fterm[2][0][0] == "const" and isinstance(fterm[2][0][1], str) and "." not in fterm[2][0][1] and len(args) == 1 and not kws:
+            return [(st, self._read(st, args[0], fterm[2][0][1], e))]
+        if fterm[0] == "call" and key(fterm[1]) in ("operator.methodcaller", "methodcaller") and fterm[2] and fterm[2][0][0] == "const" and isinstance(fterm[2][0][1], str) and len(args) == 1 and not kws:
+            recv = args[0]
+            args = list(fterm[2][1:])
+            kws = list(fterm[3])
+            fterm = ("attr", recv, fterm[2][0][1])
+            self._methodcaller_name = fterm[2]
         # getattr(obj, 'name')(...) is a method call
         if fterm[0] == "call" and fterm[1] == ("name", "getattr") and len(fterm[2]) == 2 and fterm[2][1][0] == "const" and isinstance(fterm[2][1][1], str):
             recv = fterm[2][0]
@@ -1391,6 +1606,10 @@ class Evaluator:
             recv = fterm[1]
         site = self._site(e)
         site, dyn_name = self._dyn_site(e, site, fterm, recv)
+        mc = getattr(self, "_methodcaller_name", None)
+        if mc:
+            dyn_name = dyn_name or mc  # the method named by operator.methodcaller
+            self._methodcaller_name = None
         fname = _name_of(e.func) or ""
         short = dyn_name or fname.split(".")[-1]
         if dyn_name is None and site.how == "ctor" and fterm[0] == "name" and fterm[1].split(".")[-1] in self.program.classes:
@@ -1487,7 +1706,12 @@ class Evaluator:
         try:
             from .types import parse_ann
 
-            if site.how == "ctor" or (site.targets and site.how != "byname" and all(parse_ann(t.node.returns, self.program)[0] == "cls" for t in site.targets)):
+            nn = site.how == "ctor" or (site.targets and site.how != "byname" and all(parse_ann(t.node.returns, self.program)[0] == "cls" for t in site.targets))
+            if not nn and not site.targets and short in ("heappop", "pop", "heappushpop", "heapreplace") and args:
+                # an element taken out of a list declared to hold objects of a class
+                tt = self._tenv().type_of(e)
+                nn = bool(tt) and tt[0] == "cls"
+            if nn:
                 if not hasattr(self, "_nonnull"):
                     self._nonnull = set()
                 self._nonnull.add(term)
@@ -1557,14 +1781,19 @@ class Evaluator:
                 return None
         if set(kws) - set(params):
             return None
-        body = [x for x in tgt.node.body if not (isinstance(x, ast.Expr) and isinstance(x.value, ast.Constant))]
+        expr = self._as_expression(tgt)
+        if expr is None:
+            return None
         saved_env, saved_func = st.env, self._cur_func
+        if tgt.outer is not None:
+            for k2, v2 in saved_env.items():
+                env.setdefault(k2, v2)  # a local function reads the variables of the function that defines it
         st.env = env
         self._cur_func = tgt
         self._depth += 1
         self._push_tenv(self.cg.env(tgt))
         try:
-            return self._eval_quiet(st, body[0].value)
+            return self._eval_quiet(st, expr)
         finally:
             self._pop_tenv()
             self._depth -= 1
